@@ -492,7 +492,17 @@ Definition step_ok (s : st) (e : env) (c : call) (s' : st) (r : res) : bool :=
 (* ---------------------------------------------------------------- cases written by the harness ---- *)
 
 (* t_other = number of key/value pairs outside the five dumped prefixes, over all stores, that changed *)
-Record cstep := mkStep { t_env : env; t_before : st; t_call : call; t_after : st; t_res : res; t_other : Z }.
+(* t_orig = ghost: (record id, Amount the record had when it was first observed, i.e. right after it was created) *)
+Record cstep := mkStep { t_env : env; t_before : st; t_call : call; t_after : st; t_res : res; t_other : Z;
+                         t_orig : list (Z * Z) }.
+
+(* "measured on its original amount": the basis of a pending record must still be the amount it was created with, before and
+   after the call (nothing - no balance adjustment, no slash - may shrink it while the record is pending) *)
+Definition basis_ok (orig : list (Z * Z)) (rs : list urec) : bool :=
+  forallb (fun r => match find (fun kv => fst kv =? u_id r) orig with
+                    | Some kv => u_amount r =? snd kv
+                    | None => true
+                    end) rs.
 Record case := mkCase { c_steps : list cstep }.
 
 (* pool / record / delegation / staker-list keys are distinct in a KV store *)
@@ -518,7 +528,8 @@ Fixpoint monitor_steps (ts : list cstep) (i : nat) : option nat :=
   match ts with
   | [] => None
   | t :: r =>
-      if step_ok (t_before t) (t_env t) (t_call t) (t_after t) (t_res t) && (t_other t =? 0)
+      if step_ok (t_before t) (t_env t) (t_call t) (t_after t) (t_res t) && (t_other t =? 0) &&
+         basis_ok (t_orig t) (s_recs (t_before t)) && basis_ok (t_orig t) (s_recs (t_after t))
       then monitor_steps r (S i) else Some i
   end.
 Definition monitor_case (c : case) : option nat := monitor_steps (c_steps c) 0.
